@@ -145,9 +145,57 @@ func TestC13(t *testing.T) {
 		e.Evals++
 		e.Count("startup_" + obs)
 	}
-	// start-up, what a cluster connection accepts: one-to-one lists without an empty name
-	for _, pairs := range [][][2]string{{{"a", "x"}, {"b", "x"}}, {{"a", "x"}, {"a", "y"}}, {{"a", "x"}, {"b", "y"}}, {{"a", ""}}, {{"", "x"}}, {{"a", "x"}, {"b", ""}},
-		{{"a", "b"}, {"b", "c"}}, {{"a", "b"}, {"b", "a"}}, {}} {
+	// start-up, what a cluster connection accepts: one-to-one lists without an empty name — every list of up to two pairs
+	// over three names (identity entries, chains, swaps, reused keys and values in either position) plus lists with an
+	// empty name; and the same lists as search-attribute mappings (duplicates must be refused there too)
+	startupLists := [][][2]string{{{"a", ""}}, {{"", "x"}}, {{"a", "x"}, {"b", ""}}, {{"a", "b"}, {"b", "c"}}, {}}
+	{
+		names3 := []string{"a", "b", "x"}
+		var all2 [][2]string
+		for _, l := range names3 {
+			for _, r := range names3 {
+				all2 = append(all2, [2]string{l, r})
+			}
+		}
+		for _, p := range all2 {
+			startupLists = append(startupLists, [][2]string{p})
+			for _, q := range all2 {
+				startupLists = append(startupLists, [][2]string{p, q})
+			}
+		}
+	}
+	for _, pairs := range startupLists {
+		// search-attribute mappings go through their own constructor
+		hasEmpty := false
+		for _, p := range pairs {
+			hasEmpty = hasEmpty || p[0] == "" || p[1] == ""
+		}
+		if !hasEmpty && len(pairs) > 0 {
+			sacfg := config.ClusterConnConfig{}
+			nm := config.SANamespaceMapping{Name: "n", NamespaceId: "ns-id"}
+			for _, p := range pairs {
+				nm.Mappings = append(nm.Mappings, config.SAMapping{LocalName: p[0], RemoteName: p[1]})
+			}
+			sacfg.SearchAttributeTranslation.NamespaceMappings = []config.SANamespaceMapping{nm}
+			ppSA, errSA := startProxyPair(t, sacfg)
+			if errSA == nil {
+				ppSA.Stop()
+			}
+			keys, vals, oneToOne := map[string]bool{}, map[string]bool{}, true
+			for _, p := range pairs {
+				if keys[p[0]] || vals[p[1]] {
+					oneToOne = false
+				}
+				keys[p[0]], vals[p[1]] = true, true
+			}
+			opSA := "# startup-sa " + encMap(pairs)
+			e.Emit(opSA, "#")
+			e.Evals++
+			e.Count(fmt.Sprintf("startup_sa_accepted_%v", errSA == nil))
+			if !oneToOne && errSA == nil {
+				e.Violation(map[string]any{"what": fmt.Sprintf("cluster connection with search-attribute mapping %v, which is not one-to-one, started", pairs), "ops": []string{opSA}})
+			}
+		}
 		cfg := config.ClusterConnConfig{}
 		for _, p := range pairs {
 			cfg.NamespaceTranslation.Mappings = append(cfg.NamespaceTranslation.Mappings, config.StringMapping{Local: p[0], Remote: p[1]})
